@@ -94,6 +94,7 @@ func compileReal(src string, c config) (res compiled) {
 }
 
 type staged struct {
+	dumps  [4]string // builder graph: raw, after ConstPropagate, after ShortCircuitXORZero, after Prune
 	circ   *circuit.Circuit
 	levels []int // Compile's breadth-first Level of every compiled gate, in compiled order
 	err    string
@@ -102,7 +103,7 @@ type staged struct {
 // compileStaged replays ssa.Program.CompileCircuit by hand with only the
 // first `passes` optimisation passes (0 = none ... 3 = ConstPropagate,
 // ShortCircuitXORZero, Prune) using exported API only.
-func compileStaged(src string, tgt utils.Target, passes int) (res staged) {
+func compileStaged(src string, tgt utils.Target, passes int, wantDumps bool) (res staged) {
 	defer func() {
 		if e := recover(); e != nil {
 			res = staged{err: "panic: " + clip(fmt.Sprint(e), 200)}
@@ -124,14 +125,29 @@ func compileStaged(src string, tgt utils.Target, passes int) (res staged) {
 	if err := prog.Circuit(cc); err != nil {
 		return staged{err: "error: " + clip(err.Error(), 200)}
 	}
+	var dumps [4]string
+	gates0 := append([]*circuits.Gate(nil), cc.Gates...)
+	wantDumps = wantDumps && len(gates0) <= maxDumpGates
+	if wantDumps {
+		dumps[0] = dumpGraph(cc, gates0)
+	}
 	if passes >= 1 {
 		cc.ConstPropagate()
+		if wantDumps {
+			dumps[1] = dumpGraph(cc, gates0)
+		}
 	}
 	if passes >= 2 {
 		cc.ShortCircuitXORZero()
+		if wantDumps {
+			dumps[2] = dumpGraph(cc, gates0)
+		}
 	}
 	if passes >= 3 {
 		cc.Prune()
+		if wantDumps {
+			dumps[3] = dumpGraph(cc, gates0)
+		}
 	}
 	circ := cc.Compile()
 	lvByOut := make(map[circuit.Wire]int, len(circ.Gates))
@@ -148,8 +164,11 @@ func compileStaged(src string, tgt utils.Target, passes int) (res staged) {
 		}
 		lv[i] = l
 	}
-	return staged{circ: circ, levels: lv}
+	return staged{circ: circ, levels: lv, dumps: dumps}
 }
+
+// graphs above this size are not dumped for the pass-model tie
+var maxDumpGates = 12000
 
 func clip(s string, n int) string {
 	if len(s) > n {
@@ -632,7 +651,7 @@ func runProgram(o *hxlib.Out, r *hxlib.Rng, idx int, pc progCase, lim limits, pa
 		}
 		var stg [4]staged
 		for st := 0; st <= 3; st++ {
-			stg[st] = compileStaged(pc.src, t.tgt, st)
+			stg[st] = compileStaged(pc.src, t.tgt, st, st >= 2)
 			if stg[st].circ == nil {
 				o.Fail("c09-stage-compile-fails", map[string]any{"case": idx, "prog": pc.name, "src": pc.src,
 					"target": t.tn, "passes": st, "outcome": stg[st].err})
@@ -649,6 +668,25 @@ func runProgram(o *hxlib.Out, r *hxlib.Rng, idx int, pc progCase, lim limits, pa
 			} else {
 				o.Count("stage_tie_mismatch")
 			}
+		}
+		// tie of the Lean pass models (Model/Passes.lean) to the real passes:
+		// the model applied to the dumped pre-pass graph must give the dumped
+		// post-pass graph (canonically renumbered) / the compiled circuit
+		emitPass := func(kind, in, want string) {
+			if in == "" || want == "" {
+				return
+			}
+			ptag := strings.ReplaceAll(pc.name, " ", "_") + "|" + kind + "/" + t.tn
+			o.Op(fmt.Sprintf("c09 pass %s %s %s", ptag, kind, in), want)
+			o.Count("pass_ops_" + kind)
+		}
+		if stg[3].circ != nil && stg[2].circ != nil {
+			ctag := "compile-" + t.tn
+			emitPass("cp", stg[3].dumps[0], stg[3].dumps[1])
+			emitPass("sc", stg[3].dumps[1], stg[3].dumps[2])
+			emitPass("prune", stg[3].dumps[2], stg[3].dumps[3])
+			emitPass(ctag, stg[3].dumps[3], hxlib.CircLine(stg[3].circ))
+			emitPass(ctag, stg[2].dumps[2], hxlib.CircLine(stg[2].circ))
 		}
 		// staged circuits are simulated against the real prune-off circuit
 		for st := 0; st <= 1; st++ {
